@@ -96,15 +96,15 @@ type WorkerOut struct {
 
 type StatsOut struct {
 	Runs, Calls, OkCalls, ErrCalls, PanicCalls, Aborted, StaticErr, Steps, MaxSteps, Switches, MapServed, MapReord, GCs uint64
-	AliasResults, SpareCapDocs, SharedDocCalls, ExprStateChanged, Feeds, Mutates, NonNull                            uint64
-	Unsafe, Strict, Enum, MultiFault, Compared, Blocks, Cold                                                          uint64
-	Schedules                                                                                                         map[string]uint64
-	SwitchHashes, Texts, NontrivTexts                                                                                 []uint64
-	SitePairs                                                                                                         [][2]int32
-	PreemptSites                                                                                                      []int32
-	SiteHits                                                                                                          []uint32
-	TraceDigest                                                                                                       uint64
-	MapPerms                                                                                                          []uint64
+	AliasResults, SpareCapDocs, SharedDocCalls, ExprStateChanged, Feeds, Mutates, NonNull                               uint64
+	Unsafe, Strict, Enum, MultiFault, Compared, Blocks, Cold                                                            uint64
+	Schedules                                                                                                           map[string]uint64
+	SwitchHashes, Texts, NontrivTexts                                                                                   []uint64
+	SitePairs                                                                                                           [][2]int32
+	PreemptSites                                                                                                        []int32
+	SiteHits                                                                                                            []uint32
+	TraceDigest                                                                                                         uint64
+	MapPerms                                                                                                            []uint64
 }
 
 func (st *Stats) out() StatsOut {
@@ -265,7 +265,7 @@ func cmdWorker(args []string, sweep bool) {
 		}
 		for k := uint64(0); ; k++ {
 			sw := w.clone()
-			sw.Sched = simrt.Schedule{Kind: simrt.StratExplicit, First: 0, Switches: []simrt.Switch{{Step: k, From: 0, To: 1}}}
+			sw.Sched = simrt.Schedule{Kind: simrt.StratExplicit, First: 0, Switches: []simrt.Switch{{TS: k, From: 0, To: 1}}}
 			before := st.Switches
 			one(sw)
 			if st.Switches == before || k > 20000 {
